@@ -944,6 +944,11 @@ class Interp:
                     self.exec_block(node.body, frame)
                 except _Return:
                     pass
+                from . import loops
+
+                sg = loops.finish_generator(self, out)
+                if sg is not None:
+                    return sg
                 return SRef(self.P.alloc(HIter(out)))
             try:
                 self.exec_block(node.body, frame)
@@ -1000,6 +1005,12 @@ class Interp:
             return
         if isinstance(st.value, ast.YieldFrom):
             it = self.eval(st.value.value, frame)
+            from . import loops
+
+            sg = loops.as_gen(self, it)
+            if sg is not None:
+                frame.vars["$yield"].append(loops.SymChunk(sg.n, sg.elem))
+                return
             for v in self.iterate(it):
                 frame.vars["$yield"].append(v)
             return
